@@ -58,7 +58,11 @@ class World:
     """The four running orders and the bookkeeping, replayable from ops."""
 
     def __init__(self, ro_xml):
-        self.a, self.a_ref, self.b, self.b_ref = (RunningOrder.from_string(ro_xml) for _ in range(4))
+        # the four running orders are read from the very same text, through the generic entry point
+        # (MosFile.from_string) and the class's own in turn: each is an object of its own
+        how = h64(ro_xml, 'entry') % 3
+        mk = [MosFile.from_string, RunningOrder.from_string]
+        self.a, self.a_ref, self.b, self.b_ref = (mk[(i + how) % 2 if how < 2 else 0](ro_xml) for i in range(4))
         self.objs = []          # (obj, str before first merge, text, kind)
         self.views = []         # accessor view of each object before its first merge
         self.j = 0              # how many objects B has received
